@@ -27,7 +27,7 @@ ASSUMPTIONS = ["sequences are sampled by seed; injection points are enumerated p
                "for GraphStream.graph() a failure inside a graph may keep or drop the triples of that graph that were "
                "accepted before the failing one"]
 EXHAUSTIVE_NOTE = "per sequence: every position x slot x applicable cause"
-PROBES = ["reenroll_after_reject", "cause_bad_namespace", "cause_unsupported", "cause_typed_literal", "cause_short_tuple", "slot_nested", "slot_g",
+PROBES = ["cause_none_term", "reenroll_after_reject", "cause_bad_namespace", "cause_unsupported", "cause_typed_literal", "cause_short_tuple", "slot_nested", "slot_g",
           "stream_refused_later_use", "no_trace", "physical_GRAPHS", "integration_rdflib"]
 SHRINK_LISTS = ["ops"]
 
@@ -74,6 +74,7 @@ def injections(cfg, stmts):
         for si in range(arity):
             slot = "spog"[si]
             out.append((pos, slot, "unsupported"))
+            out.append((pos, slot, "none_term"))
             if cfg["max_datatypes"] == 0 and (slot == "o" or (generic and cfg["generalized"])):
                 if not (slot == "g" and not generic):
                     out.append((pos, slot, "typed_literal"))
@@ -94,6 +95,8 @@ def bad_statement(cfg, st, slot, cause, lex):
         return objs[:2]
     if cause == "unsupported":
         bad = Alien()
+    elif cause == "none_term":
+        bad = None          # the most common unsupported "term": a missing value
     else:
         bad = conv(("lit", lex, None, "http://dt.example/rejected"))
     if slot == "nested":
@@ -201,8 +204,17 @@ def execute(plan, sim):
             sim.count("reenroll_after_reject")
         sim.event("inject", pos, slot, cause, reenroll, info["rejected"], info["exc"], info["later_ok"],
                   info["later_raised"], len(data))
-        if not info["rejected"]:
+        if not info["rejected"] and cause != "none_term":
             continue            # the statement was not rejected: nothing to judge here
+        if not info["rejected"]:
+            # an unencodable statement (None is no RDF term) that is NOT rejected must not corrupt the output either
+            sim.count("unencodable_not_rejected")
+            r0 = refdec.decode_stream(data, True, strict=False) if data else None
+            if r0 is None or not r0.ok:
+                v.append({"clause": "C20.unencodable_statement_accepted", "sig": {"cause": cause, "physical": cfg["physical"]},
+                          "msg": f"fault (pos={pos}, slot={slot}, cause={cause}): the statement was accepted without an "
+                                 f"exception and the output does not decode: {r0.error if r0 is not None else 'no bytes'}"})
+            continue
         sig = {"cause": cause, "physical": cfg["physical"]}
         loc = f"fault (pos={pos}, slot={slot}, cause={cause}, exc={info['exc']})"
         # (a) what had been written before the failure stays a valid prefix
